@@ -28,6 +28,7 @@ func c13(c *Ctx) {
 	c13attach(c)
 	c13atomicSnapshot(c)
 	c13loadApplies(c)
+	c13kubeTombstone(c)
 	c13waitHolding(c)
 }
 
